@@ -235,6 +235,10 @@ void run_case(Choices &c, Ctx &ctx)
 		ctx.label("midpoint_number");
 	if (g.f_longnum)
 		ctx.label("long_mantissa");
+	if (g.f_wide)
+		ctx.label("wide_container");
+	if (g.f_longstr)
+		ctx.label("long_string");
 	if (g.f_dup && ref.has_dup_key)
 		ctx.label("dup_key");
 	if (ref.has_huge_int)
